@@ -536,7 +536,7 @@ class C07(PropBase):
         return ["price db entries have a non-empty base commodity (guaranteed by p_identifier; hypothesis of metadata_true)",
                 "order independence is claimed for price files with distinct (instant, base, target) keys; with duplicate keys "
                 "the first entry in file order wins (modelled and tied, outside the property's quantifier)",
-                "model describes the tree with fixes/F10-never-convert-report-commodity.diff and fixes/F18-last-price-unbounded.diff applied"]
+                "model describes the tree with fixes/F10-never-convert-report-commodity.diff and fixes/F19-last-price-unbounded.diff applied"]
 
 
 def parse_price_metadata(text):
